@@ -4001,15 +4001,14 @@ validate_trait_adapt(
 +----------------------------------------------------------------------------*/
 
 static PyObject *
-validate_trait_complex(
+validate_trait_complex_items(
     trait_object *trait, has_traits_object *obj, PyObject *name,
-    PyObject *value)
+    PyObject *value, PyObject *list_type_info)
 {
     int in_range;
     long mode, rc;
     PyObject *result, *type_info, *type, *type2, *args;
 
-    PyObject *list_type_info = PyTuple_GET_ITEM(trait->py_validate, 1);
     Py_ssize_t n = PyTuple_GET_SIZE(list_type_info);
     for (Py_ssize_t i = 0; i < n; i++) {
         type_info = PyTuple_GET_ITEM(list_type_info, i);
@@ -4295,6 +4294,26 @@ error:
 done:
     Py_INCREF(value);
     return value;
+}
+
+
+static PyObject *
+validate_trait_complex(
+    trait_object *trait, has_traits_object *obj, PyObject *name,
+    PyObject *value)
+{
+    PyObject *result;
+    /* Hold a reference to the validation info for the duration of the call:
+       a 'slow' alternative runs arbitrary Python code, which may replace
+       trait->py_validate (for example when an Instance trait resolves its
+       class name and recomputes the validators). */
+    PyObject *list_type_info = PyTuple_GET_ITEM(trait->py_validate, 1);
+
+    Py_INCREF(list_type_info);
+    result = validate_trait_complex_items(
+        trait, obj, name, value, list_type_info);
+    Py_DECREF(list_type_info);
+    return result;
 }
 
 /*-----------------------------------------------------------------------------
